@@ -185,9 +185,10 @@ def _worker_chunk(args):
                     agg["samples"].append(dict(index=i, run_seed=rs,
                                                program=prog))
             if out.get("violation"):
-                agg["violations"].append(dict(index=i, run_seed=rs,
-                                              program=prog,
-                                              violation=out["violation"]))
+                agg["violations"].append(dict(
+                    index=i, run_seed=rs, program=prog,
+                    violation=out["violation"],
+                    chunk_prefix=[j for j in indices if j <= i]))
                 if len(agg["violations"]) >= 3:
                     break
         return agg
@@ -243,6 +244,8 @@ def run_batch(mod, tier, seed, runs, wall, workers=None, chunk=None,
             if not done:
                 raise HarnessError("workers hung for %ds" % (hang_s + 30))
             for f in done:
+                if f.cancelled():
+                    continue
                 agg = f.result()     # BrokenProcessPool -> harness error
                 total["runs"] += agg["runs"]
                 total["steps"] += agg["steps"]
@@ -270,11 +273,32 @@ def run_batch(mod, tier, seed, runs, wall, workers=None, chunk=None,
 
 # -------------------------------------------------------------- minimiser --
 
+def execute_any(mod, prog):
+    """Execute a program, or - for {"multi": [...]} - a sequence of programs
+    in this one process (a history across runs: hidden process-global state
+    in the library may carry over).  Returns the first violating outcome."""
+    if isinstance(prog, dict) and "multi" in prog:
+        out = new_outcome()
+        for p in prog["multi"]:
+            try:
+                out = mod.execute(p)
+            except Violation as e:
+                out = new_outcome()
+                out["violation"] = e.v
+            if out.get("violation"):
+                return out
+        return out
+    try:
+        return mod.execute(prog)
+    except Violation as e:
+        out = new_outcome()
+        out["violation"] = e.v
+        return out
+
+
 def _same_class(mod, prog, cls):
     try:
-        out = mod.execute(prog)
-    except Violation as e:
-        return e.v["cls"] == cls
+        out = execute_any(mod, prog)
     except Exception:
         return False
     v = out.get("violation")
@@ -331,6 +355,12 @@ def minimise(mod, prog, cls, max_evals=600, max_wall=90):
     program), then the module's own simplifier if it has one."""
     prog = copy.deepcopy(prog)
     budget = [max_evals, time.time() + max_wall]
+    if isinstance(prog, dict) and "multi" in prog:
+        # history across runs: drop whole runs first, keep the rest as is
+        def test_multi(cand):
+            return _same_class(mod, dict(multi=cand), cls)
+        prog["multi"] = ddmin_list(list(prog["multi"]), test_multi, budget)
+        return prog, max_evals - budget[0]
     paths = []
     for spec in getattr(mod, "SHRINK", [["ops"]]):
         if callable(spec):
@@ -403,11 +433,8 @@ def replay_file(path):
     with open(path) as f:
         doc = json.load(f)
     mod = load_prop(doc["property"])
-    try:
-        out = mod.execute(doc["program"])
-        v = out.get("violation")
-    except Violation as e:
-        v = e.v
+    out = execute_any(mod, doc["program"])
+    v = out.get("violation")
     if v:
         known = match_known(doc["property"], v["cls"])
         same = v["cls"] == doc["violation"]["cls"]
@@ -494,8 +521,10 @@ def run_check(mod, tier, seed):
     if hasattr(mod, "extra"):
         extra = mod.extra(tier, seed)
         extra_viol = extra.get("violations", [])
-    total = run_batch(mod, tier, seed, b["runs"], b["wall"],
-                      chunk=b.get("chunk"), hang_s=b.get("hang_s", 600))
+    total = run_batch(mod, tier, seed,
+                      b["runs"] if not extra_viol else min(b["runs"], 200),
+                      b["wall"], chunk=b.get("chunk"),
+                      hang_s=b.get("hang_s", 600))
     if total["errors"]:
         e = total["errors"][0]
         print("HARNESS-ERROR property=%s run=%d run_seed=%d\n%s" % (
@@ -532,6 +561,27 @@ def run_check(mod, tier, seed):
             # fall back to the unminimised program before giving up
             path = write_replay(mod, tier, seed, v, v["program"], False, evals)
             ok, txt = verify_replay_fresh(path, cls)
+        if not ok and v.get("chunk_prefix"):
+            # the violation needs what earlier runs of the same worker left
+            # behind in the library's process-global state: replay the
+            # worker's history (the runs of that chunk up to this one)
+            multi = dict(multi=[mod.generate(derive(seed, mod.ID, tier, j),
+                                             tier)
+                                for j in v["chunk_prefix"]])
+            if _same_class(mod, multi, cls):
+                print("[%s] needs cross-run history (process-global state); "
+                      "minimising the run sequence ..." % mod.ID, flush=True)
+                try:
+                    m2, ev2 = minimise(mod, multi, cls, max_evals=300,
+                                       max_wall=120)
+                except Exception:
+                    traceback.print_exc()
+                    m2, ev2 = multi, 0
+                path = write_replay(mod, tier, seed, v, m2, True, ev2)
+                ok, txt = verify_replay_fresh(path, cls)
+                if not ok:
+                    path = write_replay(mod, tier, seed, v, multi, False, ev2)
+                    ok, txt = verify_replay_fresh(path, cls)
         print("  " + v["violation"]["msg"].replace("\n", "\n  "))
         if not ok:
             print("HARNESS-ERROR property=%s: violation did not replay in a "
